@@ -239,7 +239,8 @@ int main(int argc, char** argv) {
   for (int i = 1; i + 1 < argc; ++i) if (!strcmp(argv[i], "--workdir")) g_root = argv[i + 1];
   if (g_root.empty()) { fprintf(stderr, "h52: --workdir required\n"); return 2; }
   mkdir(g_root.c_str(), 0755);
-  g_root += "/p" + std::to_string(long(getpid()));   // private to this process (the name never reaches an oracle: paths are normalised)
+  { char b[32]; snprintf(b, sizeof b, "/p%07ld", long(getpid())); g_root += b; }   // private to this process; fixed length: the path is written in the log, and its length moves the
+                                                                                  // points at which the 8 KiB stream buffer is flushed (scheduling points)
   mkdir(g_root.c_str(), 0755);
   atexit([] { if (!vsim::in_forked_child()) rm_rf(g_root); });
   // the one-off registration of mfront's DSLs and interfaces happens here, outside any simulated run: no run then depends on
